@@ -609,4 +609,69 @@ theorem script_false_is_no_failure :
   · exact ⟨.ctxErr, rfl, by simp [reserveDecide]⟩
   · exact ⟨.err, rfl, by simp [reserveDecide]⟩
 
+/-! ## round 5e: a flapping store — the local bucket survives between outages -/
+
+/-- **The local bucket of an instance survives between outages**: no operation other than a request of instance `i`
+itself touches `i`'s local limiter — not the outage, not the recovery, not `startMonitor`, not the monitor goroutine's
+`redisAlive = 1` / `monitorStarted = false`, not the requests of other instances (the limiter is built ONCE, by the
+constructor: `TieClient.tie_rescueLimiter_allocation_sem`). -/
+theorem local_bucket_survives_outages (fixed : Bool) (c : TCfg) (s : Sys) (i : Nat) (op : TOp)
+    (h : ∀ ns n, op ≠ .allow i ns n) :
+    ((s.step fixed c op).1.insts i).rescue = (s.insts i).rescue ∧
+    (s.insts i).startMonitor.rescue = (s.insts i).rescue := by
+  refine ⟨?_, by unfold Inst.startMonitor; split <;> rfl⟩
+  cases op with
+  | ft ms => rfl
+  | down => rfl
+  | up => rfl
+  | cancelledAlive j ns n => rfl
+  | pingOk j =>
+    simp only [Sys.step]; split
+    · by_cases hj : i = j
+      · subst hj; simp [upd]
+      · simp [upd, hj]
+    · rfl
+  | monExit j =>
+    simp only [Sys.step]; split
+    · by_cases hj : i = j
+      · subst hj; simp [upd]
+      · simp [upd, hj]
+    · rfl
+  | lateFail j =>
+    simp only [Sys.step]
+    by_cases hj : i = j
+    · subst hj; simp only [upd, if_true]; unfold Inst.startMonitor; split <;> rfl
+    · simp [upd, hj]
+  | allow j ns n =>
+    have hj : i ≠ j := fun e => h ns n (by rw [e])
+    simp only [Sys.step, Sys.reserveN, Sys.rescuePath]
+    split
+    · simp [upd, hj]
+    · split
+      · simp [upd, hj]
+      · split <;> simp [upd, hj]
+
+/-- a flapping store: `k` outages in a row; during each, instance `i` makes the listed requests `(now ns, n)`; in between
+the store is reachable just long enough for the monitor goroutine to bring the instance back and exit -/
+def flapping (i : Nat) : List (List (Nat × Nat)) → List TOp
+  | [] => []
+  | reqs :: rest =>
+    [TOp.down] ++ reqs.map (fun r => TOp.allow i r.1 r.2) ++ [TOp.up, TOp.pingOk i, TOp.monExit i] ++ flapping i rest
+
+/-- **One local bucket across any number of outages.** For every rate in 1…10⁹, burst, instance and EVERY flapping
+schedule (any number of outages, any requests in each): over any interval of the requests the instance decided locally —
+also intervals that span several outages — `ival × granted ≤ ival × burst + elapsed ns`: the instance does NOT get a
+fresh bucket per outage (seeded change C03-10 gives it one). -/
+theorem flapping_store_local_bound (c : TCfg) (hi : c.ival ≠ 0) (i : Nat) (outages : List (List (Nat × Nat)))
+    (pre mid post : List Ev) (e1 : Ev)
+    (hmono : Mono 0 ((rescueEvs i (Sys.run true c (Sys.init c) (flapping i outages))).map rcallOf))
+    (hsplit : rescueEvs i (Sys.run true c (Sys.init c) (flapping i outages)) = pre ++ (e1 :: mid) ++ post) :
+    grantedOf (e1 :: mid) * c.ival ≤ c.burst * c.ival + (((e1 :: mid).getLast (by simp)).ns - e1.ns) :=
+  Props.rescue_local_bound true c hi i (flapping i outages) pre mid post e1 hmono hsplit
+
+/-- three outages at one instant, burst 2: two requests are granted in the first outage, none in the later ones -/
+example : (Sys.run true ⟨5, 2, "a", "b"⟩ (Sys.init ⟨5, 2, "a", "b"⟩)
+      (flapping 0 [[(7, 1), (7, 1), (7, 1)], [(7, 1), (7, 1)], [(8, 1)]])).map (·.ok)
+    = [true, true, false, false, false, false] := by decide
+
 end GoZero.C03.PropsApi
